@@ -18,8 +18,9 @@ TraceFile == IOEnv.TRACE_FILE
 Trace == ndJsonDeserialize(TraceFile)
 NLines == Len(Trace)
 
-InitLines == { k \in 1..NLines : Trace[k].a = "Init" }
-TraceCreators == 1..MaxOfSet({ Trace[k].x.nc : k \in InitLines }, 1)
+\* largest creator number over all trace segments of the file (the runner scans
+\* the file; evaluating it here on every reference would be quadratic)
+TraceCreators == 1..atoi(IOEnv.TRACE_NC)
 
 VARIABLES l,        \* index of the next line
           D,        \* event table (from Create lines)
@@ -27,18 +28,19 @@ VARIABLES l,        \* index of the next line
           dlv,      \* node number -> blocks the implementation delivered (observed)
           sto,      \* node number -> last observed store listing
           psto,     \* node number -> previous observed store listing
+          rrv,      \* node number -> (event -> round-received as observed)
           sub,      \* submitted transaction ids -> node
           viol,     \* accumulated property violations
           drift,    \* accumulated conformance mismatches
           stats     \* counters (for vacuity control)
 
-vars == << l, D, nodes, dlv, sto, psto, sub, viol, drift, stats >>
+vars == << l, D, nodes, dlv, sto, psto, rrv, sub, viol, drift, stats >>
 
 Line == Trace[l]
 NodeNums == DOMAIN nodes
 
 SeqToSet(s) == { s[i] : i \in DOMAIN s }
-AsSeq(s) == [ i \in 1..Len(s) |-> s[i] ]
+AsSeq(s) == Strict([ i \in 1..Len(s) |-> s[i] ])
 
 EvRec(x) ==
     [ c |-> x.c, i |-> x.i, sp |-> x.sp, op |-> x.op,
@@ -90,16 +92,26 @@ Inv_C04_Once(dv) ==
     \A n \in DOMAIN dv :
         LET cs == CommittedEvs(dv[n]) IN \A i, j \in 1..Len(cs) : i # j => cs[i] # cs[j]
 
-\* ancestry comes from the parents recorded by the driver only.  Checked for
-\* the events of newly delivered blocks (older ones were checked when they
-\* were delivered): both parents of a committed event are committed, at an
-\* earlier position.  By induction over the committed order every ancestor
-\* precedes its descendants.  base: events below a fast-sync frame.
-Inv_C04_Causal(DD, dvn, fromIdx) ==
-    LET cs == CommittedEvs(dvn)
-        newEvs == UNION { SeqToSet(dvn[i].evs) : i \in fromIdx..Len(dvn) }
-        before(p, e) == p = "" \/ (PosIn(cs, p) > 0 /\ PosIn(cs, p) < PosIn(cs, e))
-    IN  \A e \in newEvs : before(DD[e].sp, e) /\ before(DD[e].op, e)
+\* ancestry comes from the parents recorded by the driver only.  rv: the
+\* round-received the implementation reported for each event of this node.
+\* (i) a parent is received no later than its child - checked when the child
+\* is received; by induction over ancestry every ancestor is received no later;
+\* (ii) a block holds exactly the events received in its round, and inside it
+\* parents precede children.  Blocks are delivered in increasing
+\* round-received (C02), so the committed order extends ancestry.
+Inv_C04_Causal(DD, rv, o) ==
+    \A k \in 1..Len(o.rr) :
+        LET e == o.rr[k].e
+            okp(p) == p = "" \/ p \notin DOMAIN DD \/ (p \in DOMAIN rv /\ rv[p] <= rv[e])
+        IN  okp(DD[e].sp) /\ okp(DD[e].op)
+
+Inv_C04_BlockIsFrame(DD, rv, o) ==
+    \A k \in 1..Len(o.blocks) :
+        LET b == o.blocks[k]
+            es == SeqToSet(b.evs)
+            inOrder(i, p) == p \notin es \/ (PosIn(b.evs, p) < i)
+        IN  /\ { e \in DOMAIN rv : rv[e] = b.rr } = es
+            /\ \A i \in 1..Len(b.evs) : inOrder(i, DD[b.evs[i]].sp) /\ inOrder(i, DD[b.evs[i]].op)
 
 Inv_C04_Payload(DD, dvn, fromIdx) ==
     \A i \in fromIdx..Len(dvn) :
@@ -225,7 +237,7 @@ TSyncLoop(DD, st, from, es, ins) ==
             mine == c = nd.h.me
             hd == nd.heads
             hd1 == IF c \in DOMAIN hd /\ hd[c] # NoEv /\ DD[e].i > DD[hd[c]].i
-                   THEN [ x \in (DOMAIN hd) \ {c} |-> hd[x] ] ELSE hd
+                   THEN Without(hd, c) ELSE hd
             nd1 == [ nd EXCEPT !.h = h1,
                                !.head = IF mine THEN e ELSE @,
                                !.seq = IF mine THEN DD[e].i ELSE @,
@@ -283,6 +295,7 @@ TInit ==
     /\ dlv = EmptyFun
     /\ sto = EmptyFun
     /\ psto = EmptyFun
+    /\ rrv = EmptyFun
     /\ sub = EmptyFun
     /\ viol = {}
     /\ drift = {}
@@ -298,6 +311,7 @@ TraceReset ==
            /\ dlv' = [ n \in ns |-> << >> ]
            /\ sto' = [ n \in ns |-> << >> ]
            /\ psto' = [ n \in ns |-> << >> ]
+           /\ rrv' = [ n \in ns |-> << >> ]
     /\ D' = EmptyFun
     /\ sub' = EmptyFun
     /\ stats' = Bump(Bump(stats, "traces"), "lines")
@@ -307,14 +321,14 @@ TraceCreate ==
     /\ Line.a = "Create"
     /\ D' = Ext(D, Line.x.id, EvRec(Line.x))
     /\ stats' = Bump(Bump(stats, "creates"), "lines")
-    /\ UNCHANGED << nodes, dlv, sto, psto, sub, viol, drift >>
+    /\ UNCHANGED << nodes, dlv, sto, psto, rrv, sub, viol, drift >>
 
 TraceSubmit ==
     /\ Line.a = "Submit"
     /\ nodes' = [ nodes EXCEPT ![Line.n].txpool = Append(@, Line.x.tx) ]
     /\ sub' = Ext(sub, Line.x.tx, Line.n)
     /\ stats' = Bump(stats, "lines")
-    /\ UNCHANGED << D, dlv, sto, psto, viol, drift >>
+    /\ UNCHANGED << D, dlv, sto, psto, rrv, viol, drift >>
 
 \* Everything a Sync line implies, computed once (TLC caches LET values inside
 \* an operator, not inside an action).
@@ -330,12 +344,16 @@ SyncOutcome(n, x, o) ==
         psto1 == IF hasStore THEN [ psto EXCEPT ![n] = sto[n] ] ELSE psto
         nodes1 == [ nodes EXCEPT ![n] = nd1 ]
         from == Len(dlv[n]) + 1
+        rrNew == Strict([ e \in { o.rr[k].e : k \in 1..Len(o.rr) } |->
+                           o.rr[CHOOSE k \in 1..Len(o.rr) : o.rr[k].e = e].rr ])
+        rv1 == rrNew @@ rrv[n]
         V == Checks("C01", "Inv_C01_Agreement", o.blocks = << >> \/ Inv_C01_Agreement(dlv1))
              \cup Checks("C02", "Inv_C02_Consecutive", o.blocks = << >> \/ Inv_C02_Consecutive(dlv1))
              \cup Checks("C02", "Inv_C02_StoreKeepsDelivered", ~hasStore \/ Inv_C02_StoreKeepsDelivered(dlv1, sto1))
              \cup Checks("C02", "Inv_C02_SigsOnlyGrow", ~hasStore \/ Inv_C02_SigsOnlyGrow(sto1, psto1))
              \cup Checks("C04", "Inv_C04_Once", o.blocks = << >> \/ Inv_C04_Once(dlv1))
-             \cup Checks("C04", "Inv_C04_Causal", o.blocks = << >> \/ Inv_C04_Causal(D, dlv1[n], from))
+             \cup Checks("C04", "Inv_C04_Causal", Inv_C04_Causal(D, rv1, o))
+             \cup Checks("C04", "Inv_C04_BlockIsFrame", Inv_C04_BlockIsFrame(D, rv1, o))
              \cup Checks("C04", "Inv_C04_Payload", o.blocks = << >> \/ Inv_C04_Payload(D, dlv1[n], from))
              \cup Checks("C05", "Inv_C05_OnlySubmittedOnce", o.blocks = << >> \/ Inv_C05_OnlySubmittedOnce(dlv1, sub))
              \cup Checks("C05", "Inv_C05_NeverDropped",
@@ -355,7 +373,7 @@ SyncOutcome(n, x, o) ==
              \cup Checks("-", "Conf_SyncClass", ~r.mis)
              \cup Checks("-", "Conf_SelfEvent", r.selfok /\ r.wantsOK)
              \cup Checks("-", "Conf_FameUnambiguous", ~h1.ambig)
-    IN  [ nodes |-> nodes1, dlv |-> dlv1, sto |-> sto1, psto |-> psto1,
+    IN  [ nodes |-> nodes1, dlv |-> dlv1, sto |-> sto1, psto |-> psto1, rrv |-> [ rrv EXCEPT ![n] = rv1 ],
           viol |-> AddCapped(viol, V), drift |-> AddCapped(drift, F),
           stats |-> [ stats EXCEPT !.lines = @ + 1, !.syncs = @ + 1,
                                    !.inserts = @ + Len(x.ins) + Len(x.new),
@@ -369,6 +387,7 @@ TraceSync ==
           /\ dlv' = R.dlv
           /\ sto' = R.sto
           /\ psto' = R.psto
+          /\ rrv' = R.rrv
           /\ viol' = R.viol
           /\ drift' = R.drift
           /\ stats' = R.stats
@@ -378,7 +397,7 @@ TraceSync ==
 TraceNoop ==
     /\ Line.a \in { "SyncFail", "Note" }
     /\ stats' = Bump(stats, "lines")
-    /\ UNCHANGED << D, nodes, dlv, sto, psto, sub, viol, drift >>
+    /\ UNCHANGED << D, nodes, dlv, sto, psto, rrv, sub, viol, drift >>
 
 TraceStep ==
     /\ l <= NLines
@@ -392,7 +411,7 @@ TraceDone ==
     /\ PrintT(<< "@@DRIFT", drift >>)
     /\ PrintT(<< "@@STATS", stats >>)
     /\ PrintT(<< "@@DONE", NLines >>)
-    /\ UNCHANGED << D, nodes, dlv, sto, psto, sub, viol, drift, stats >>
+    /\ UNCHANGED << D, nodes, dlv, sto, psto, rrv, sub, viol, drift, stats >>
 
 TNext == TraceStep \/ TraceDone
 
